@@ -480,6 +480,16 @@ char * label_from_token(const char * source, token * t) {
 }
 
 
+
+/// Anchor number for the `n`th note or heading under --random / --unique.
+/// A pure function of the per-document seed: re-seeding the process-wide
+/// generator here (srand) made the uuids of package assets repeat, and two
+/// notes of one document could draw the same number.  7919 is coprime to
+/// 32000, so different `n` give different anchors.
+unsigned short random_anchor(unsigned int seed_base, unsigned int n) {
+	return (unsigned short)((seed_base + 7919u * n) % 32000u + 1u);
+}
+
 char * label_from_header(const char * source, token * t, scratch_pad * scratch) {
 	char * result;
 	short temp_short;
@@ -490,8 +500,7 @@ char * label_from_header(const char * source, token * t, scratch_pad * scratch) 
 		result = label_from_token(source, temp_token);
 	} else {
 		if (scratch->extensions & EXT_RANDOM_LABELS) {
-			srand(scratch->random_seed_base_labels + scratch->label_counter);
-			temp_short = rand() % 32000 + 1;
+			temp_short = random_anchor(scratch->random_seed_base_labels, scratch->label_counter);
 			result = malloc(sizeof(char) * 6);
 			sprintf(result, "%d", temp_short);
 
